@@ -1431,11 +1431,10 @@ class SQLModel:
         view_name = "order_rows_" + str(temp_id_source[0])
         temp_id_source[0] = temp_id_source[0] + 1
         terms = None
-        if (not using_was_None) or (
-            order_node.sources[0].node_name == "TableDescription"
-        ):
-            # SELECT * straight from a database table would also return columns
-            # the table description does not declare
+        if (not using_was_None) or subsql.is_table:
+            # SELECT * straight from a database table would return the table's own
+            # columns in the table's own order: also those the table description does
+            # not declare, and not in the order an intermediate select_columns asked for
             terms = {ci: None for ci in subusing}
         suffix: List[str] = []
         if len(order_node.order_columns) > 0:
